@@ -141,6 +141,21 @@ void operator delete(void* p) noexcept { sch::sched_point(); free(p); }
 void operator delete[](void* p) noexcept { sch::sched_point(); free(p); }
 void operator delete(void* p, std::size_t) noexcept { sch::sched_point(); free(p); }
 void operator delete[](void* p, std::size_t) noexcept { sch::sched_point(); free(p); }
+void* operator new(std::size_t n, const std::nothrow_t&) noexcept { sch::sched_point(); return malloc(n ? n : 1); }
+void* operator new[](std::size_t n, const std::nothrow_t&) noexcept { sch::sched_point(); return malloc(n ? n : 1); }
+void operator delete(void* p, const std::nothrow_t&) noexcept { sch::sched_point(); free(p); }
+void operator delete[](void* p, const std::nothrow_t&) noexcept { sch::sched_point(); free(p); }
+static inline void* vf_aligned(std::size_t n, std::size_t al) { void* p = nullptr; if (al < sizeof(void*)) al = sizeof(void*); if (posix_memalign(&p, al, n ? n : 1)) return nullptr; return p; }
+void* operator new(std::size_t n, std::align_val_t al) { sch::sched_point(); void* p = vf_aligned(n, (std::size_t)al); if (!p) throw std::bad_alloc(); return p; }
+void* operator new[](std::size_t n, std::align_val_t al) { sch::sched_point(); void* p = vf_aligned(n, (std::size_t)al); if (!p) throw std::bad_alloc(); return p; }
+void* operator new(std::size_t n, std::align_val_t al, const std::nothrow_t&) noexcept { sch::sched_point(); return vf_aligned(n, (std::size_t)al); }
+void* operator new[](std::size_t n, std::align_val_t al, const std::nothrow_t&) noexcept { sch::sched_point(); return vf_aligned(n, (std::size_t)al); }
+void operator delete(void* p, std::align_val_t) noexcept { sch::sched_point(); free(p); }
+void operator delete[](void* p, std::align_val_t) noexcept { sch::sched_point(); free(p); }
+void operator delete(void* p, std::size_t, std::align_val_t) noexcept { sch::sched_point(); free(p); }
+void operator delete[](void* p, std::size_t, std::align_val_t) noexcept { sch::sched_point(); free(p); }
+void operator delete(void* p, std::align_val_t, const std::nothrow_t&) noexcept { sch::sched_point(); free(p); }
+void operator delete[](void* p, std::align_val_t, const std::nothrow_t&) noexcept { sch::sched_point(); free(p); }
 
 namespace sch {
 
